@@ -1606,7 +1606,11 @@ class DipStoreMachine(Machine):
                 [st["path"] for st in stmts if st["k"] == "source"]
             if read:
                 op["io_fault"] = {"path": rng.choice(read),
-                                  "kind": rng.choice(["ENOENT", "EACCES", "EIO", "undecodable"])}
+                                  "kind": rng.choice(["ENOENT", "EACCES", "EIO", "undecodable",
+                                                      "torn"])}
+                if op["io_fault"]["kind"] == "torn":
+                    # the reader sees a prefix cut at an arbitrary character
+                    op["io_fault"]["permille"] = rng.randint(1, 999)
         if file_ops:
             self.queue = file_ops[1:] + [op]
             return file_ops[0]
@@ -1814,8 +1818,15 @@ class DipStoreMachine(Machine):
                 isinstance(a.detail[0], str) and model.nodes.get(a.detail[0], {}).get("imported"))
         except DM.Unspecified as u:
             expected, why = "unspecified", str(u)
+        if io and io["kind"] == "torn":
+            # what a cut-off text means is anybody's guess; the round runs for what must hold
+            # however it ends: earlier environments, files and the unit tables untouched
+            expected, why, eprop = "unspecified", "file read while it was being written", None
         # ---- implementation
-        self.fs.plan = {io["path"]: [io["kind"]]} if io else {}
+        kind = io["kind"] if io else None
+        if kind == "torn":
+            kind = "torn:%d" % io.get("permille", 500)
+        self.fs.plan = {io["path"]: [kind]} if io else {}
         self.fs.fired = []
         files_before = self.fs.snapshot()
         got, env, err = "commit", None, None
